@@ -558,8 +558,16 @@ def check(cx):
             out = [bi for bi, adt, m, oth, src in enum_switches(p, g) if adt == "types::DataType" and "Null" in m and (blocks is None or bi in blocks)]
             out += [c.bb for c in g.calls() if c.callee.endswith("::is_null") and (blocks is None or c.bb in blocks)]
             return out
-        helpers = {g.id for g in p.fns.values() if g.impl_adt == "runtime::eval::ExpressionEvaluator" and not g.name.startswith("evaluate")
-                   and null_aggs(g) and null_tests(g)}
+        methods = [g for g in p.fns.values() if g.impl_adt == "runtime::eval::ExpressionEvaluator" and not g.name.startswith("evaluate")]
+        helpers = {g.id for g in methods if null_aggs(g) and null_tests(g)}
+        # ... or that hand the NULL case to such a helper (`null_operand_result(lhs, rhs, op)` extracted from eval_binary_op)
+        changed = True
+        while changed:
+            changed = False
+            for g in methods:
+                if g.id not in helpers and any(c.callee in helpers for c in g.calls()):
+                    helpers.add(g.id)
+                    changed = True
         sws = [x for x in enum_switches(p, fev) if x[1].endswith("BoundExpression")]
         if not sws:
             cx.bad(r7, "no-match", fev.where(), "evaluate does not match on BoundExpression")
